@@ -167,7 +167,11 @@ func (s *ScanMethod) ProcessPacketData(data []byte, _ *gopacket.CaptureInfo) (er
 }
 
 func validPacket(decoded []gopacket.LayerType) bool {
-	return len(decoded) == 3 || (len(decoded) == 2 && decoded[0] == layers.LayerTypeIPv4)
+	n := len(decoded)
+	if n < 2 || decoded[n-1] != layers.LayerTypeTCP || decoded[n-2] != layers.LayerTypeIPv4 {
+		return false
+	}
+	return n == 2 || (n == 3 && decoded[0] == layers.LayerTypeEthernet)
 }
 
 type PacketFiller struct {
